@@ -31,6 +31,7 @@ type tapes struct {
 type record struct {
 	Prop        string         `json:"prop"`
 	Index       uint64         `json:"idx"`
+	First       uint64         `json:"first"`
 	Seed        uint64         `json:"seed"`
 	OK          bool           `json:"ok"`
 	Class       string         `json:"class,omitempty"`
@@ -59,6 +60,10 @@ func (r *record) signature() string { return r.Class + "|" + r.Site }
 type replayFile struct {
 	Property  string            `json:"property"`
 	Part      string            `json:"part,omitempty"` // worker harness name when the property has several (e.g. C16g)
+	// RangeFirst: the violation depends on state earlier runs left in the worker process (a
+	// process-wide cache, say): the replay is the run sequence RangeFirst..Index in one fresh
+	// process, not the tapes of the last run alone
+	RangeFirst *uint64 `json:"range_first,omitempty"`
 	Seed      uint64            `json:"seed"`
 	Index     uint64            `json:"index"`
 	Base      uint64            `json:"base_seed"`
@@ -535,6 +540,23 @@ func shrinkAndSave(e *environ, b *built, top, spec *propSpec, tier string, base 
 			return "", stats, err
 		}
 		if first.signature() != sig {
+			// The run alone does not reproduce. Before calling it nondeterminism: a violation may
+			// depend on what earlier runs left behind in the worker process (package-level state
+			// in the code under test). Re-execute the same run sequence in a fresh process, twice.
+			if r.First < r.Index {
+				ok := true
+				for i := 0; i < 2 && ok; i++ {
+					rr, rerr := runRange(e, b, spec, tier, base, r.First, r.Index)
+					ok = rerr == nil && rr != nil && rr.signature() == sig
+				}
+				if ok {
+					f := r.First
+					cur.RangeFirst = &f
+					cur.Strict = false
+					stats["replays_as"] = fmt.Sprintf("run sequence %d..%d in one process (state carried between runs)", r.First, r.Index)
+					return saveReplay(e, top, cur, sig, stats)
+				}
+			}
 			return "", stats, fmt.Errorf("recorded tapes gave %q instead of %q (nondeterminism)", first.signature(), sig)
 		}
 		tried, accepted := 0, 0
@@ -582,6 +604,21 @@ func shrinkAndSave(e *environ, b *built, top, spec *propSpec, tier string, base 
 			return "", stats, fmt.Errorf("strict replay #%d gave %q diverged=%v instead of %q", i+1, rec.signature(), rec.Diverged, sig)
 		}
 	}
+	return saveReplay(e, top, cur, sig, stats)
+}
+
+// runRange re-executes runs first..idx in one fresh worker process and returns the record of idx.
+func runRange(e *environ, b *built, spec *propSpec, tier string, base, first, idx uint64) (*record, error) {
+	recs, stderr, err := runWorker(e, b, []string{"-sim.prop", spec.ID, "-sim.idx", fmt.Sprintf("%d:%d", first, idx+1), "-sim.base", fmt.Sprint(base), "-sim.tier", tier}, 600*time.Second, 0)
+	for i := range recs {
+		if recs[i].Index == idx {
+			return &recs[i], nil
+		}
+	}
+	return nil, fmt.Errorf("run %d not reached: %v\n%s", idx, err, tail(stderr, 10))
+}
+
+func saveReplay(e *environ, top *propSpec, cur *replayFile, sig string, stats map[string]any) (string, map[string]any, error) {
 	cur.Shrink = stats
 	h := sha256.Sum256([]byte(sig))
 	name := fmt.Sprintf("%s-%s.json", top.ID, hex.EncodeToString(h[:5]))
@@ -722,7 +759,13 @@ func cmdReplay(e *environ, spec *propSpec, path string) int {
 		return 2
 	}
 	var rec *record
-	if rp.Signature != "" && strings.HasPrefix(rp.Signature, "crash|") {
+	if rp.RangeFirst != nil {
+		rec, err = runRange(e, b, spec, rp.Tier, rp.Base, *rp.RangeFirst, rp.Index)
+		if err != nil {
+			fmt.Fprintf(os.Stderr, "vcheck %s: %v\n", top.ID, err)
+			return 2
+		}
+	} else if rp.Signature != "" && strings.HasPrefix(rp.Signature, "crash|") {
 		recs, stderr, werr := runWorker(e, b, []string{"-sim.prop", spec.ID, "-sim.idx", fmt.Sprintf("%d:%d", rp.Index, rp.Index+1), "-sim.base", fmt.Sprint(rp.Base), "-sim.tier", rp.Tier}, 300*time.Second, 0)
 		if werr != nil && (strings.Contains(stderr, "fatal error:") || strings.Contains(stderr, "panic:")) {
 			fmt.Printf("reproduced: crash|%s\n%s\n", crashSite(stderr), tail(stderr, 30))
